@@ -1075,6 +1075,14 @@ func TestVerifPool(t *testing.T) {
 				sc = append(sc, vt.M{"a": "release", "p": q}, vt.M{"a": "alloc", "p": q}, vt.M{"a": "wait", "us": rng.Intn(300)}, vt.M{"a": "cancel", "p": q})
 			}
 		}
+		if k%2 == 0 {
+			// an address a pod holds is removed remotely, the periodic sync sees it, the pod leaves, the next pods arrive
+			// before / after another sync: the removed address must not be handed out again
+			sc = append(sc, vt.M{"a": "uninhibit"}, vt.M{"a": "alloc", "p": 1}, vt.M{"a": "alloc", "p": 2}, vt.M{"a": "settle"},
+				vt.M{"a": "remove", "k": 0, "j": 0, "fam": 4}, vt.M{"a": "remove", "k": 0, "j": 1, "fam": 4}, vt.M{"a": "remove", "k": 1, "j": 0, "fam": 4},
+				vt.M{"a": "sync", "slot": 1}, vt.M{"a": "sync", "slot": 2}, vt.M{"a": "sync", "slot": 3},
+				vt.M{"a": "release", "p": 1}, vt.M{"a": "release", "p": 2}, vt.M{"a": "alloc", "p": 3}, vt.M{"a": "alloc", "p": 4}, vt.M{"a": "settle"})
+		}
 		if k%4 == 3 {
 			// a request arriving just when a freshly assigned address lands steals it from a queued waiter whose job was already
 			// popped; afterwards everything is released and the balancer may give the interface up while that waiter still waits
